@@ -61,13 +61,13 @@ fn body_digest<T: Serialize>(b: &T) -> u64 {
 }
 
 /// Generate an explicit fault-free history by running it (adaptive generation needs the state).
-fn gen_history(rng: Rng, cfg: &RunCfg, focus: u32) -> Option<Vec<Step>> {
+pub fn gen_history(rng: Rng, cfg: &RunCfg, focus: u32) -> Option<Vec<Step>> {
     let r = run_hist(cfg, StepSrc::Gen(Gen::new(rng)), &HistOpts { focus, snapshot: false, trace: false, huge_hints: false, alloc_faults: false });
     // if the generating run itself diverges, the steps up to and including the diverging one
     // are still a perfectly good explicit history: the twin comparison decides what it means
     match r.end {
         RunEnd::Clean => Some(r.steps),
-        _ if focus == C18 && !r.steps.is_empty() => Some(r.steps),
+        _ if !r.steps.is_empty() => Some(r.steps),
         _ => None,
     }
 }
@@ -1040,6 +1040,215 @@ impl Engine for FreshEngine {
     }
     fn abort_is_violation(&self, _body: &serde_json::Value, class: &str) -> bool {
         class.starts_with("abort_unsafe") || class.starts_with("abort_heap") || class.starts_with("abort_signal")
+    }
+    fn size_of(&self, body: &serde_json::Value) -> usize {
+        body.get("steps").and_then(|s| s.as_array()).map_or(0, |a| a.len())
+    }
+}
+
+// ------------------------------------------------------------------------------------------
+// Latent damage: after an operation of the property's families the queue must go on behaving
+// like a queue freshly built from the same contents. Attribution is differential: a later
+// failure counts against the property only if the freshly built twin does not fail there too.
+
+#[derive(Clone, Debug, Serialize, Deserialize)]
+pub struct LatentBody {
+    pub cfg: RunCfg,
+    pub steps: Vec<Step>,
+    /// index of the operation under scrutiny
+    pub at: usize,
+}
+
+fn serious(f: &Fail) -> bool {
+    f.props & (C01 | C02 | C03 | C12) != 0 || (f.props & C04 != 0 && !f.class.starts_with("tables"))
+}
+
+pub fn run_latent_case(b: &LatentBody, prop: &str, focus: u32) -> Result<Option<FailRec>, String> {
+    ledger_reset();
+    disarm_all();
+    let h = b.cfg.hasher;
+    let mut a = Inst::new(&b.cfg, b.cfg.ctor, h)?;
+    let at = b.at.min(b.steps.len().saturating_sub(1));
+    for (i, st) in b.steps.iter().enumerate().take(at + 1) {
+        match a.step(st, h) {
+            Err(p) => {
+                if i == at {
+                    // a panic of the operation itself is the history check's business
+                    return Err(format!("the operation itself panicked: {}", p));
+                }
+                return Err(format!("prefix panicked: {}", p));
+            }
+            Ok(r) => {
+                if i == at {
+                    if let Some(f) = r.2.iter().find(|f| f.props & focus != 0) {
+                        return Ok(Some(frec(prop, f.class, format!("after {:?}: {}", st, f.msg), i)));
+                    }
+                }
+                if r.2.iter().any(serious) {
+                    return Err("foreign divergence before the comparison starts".into());
+                }
+            }
+        }
+    }
+    if a.cx.order_suspended {
+        return Err("order suspended (leaked guard)".into());
+    }
+    // the twin: a fresh queue holding the same contents, built by plain pushes
+    let mut f = Inst::new(&b.cfg, Ctor::WithHasher, h)?;
+    if f.q.kind() != a.q.kind() {
+        f.q = construct(a.q.kind(), Ctor::WithHasher);
+    }
+    for (k, p, pl) in a.q.contents() {
+        f.q.push(Key::new(k, pl), Prio::new(p));
+    }
+    f.m = a.m.clone();
+    f.n = a.n;
+    for (i, st) in b.steps.iter().enumerate().skip(at + 1) {
+        let rf = f.step(st, h);
+        let ra = a.step(st, h);
+        let f_bad = match &rf {
+            Err(_) => true,
+            Ok(r) => r.2.iter().any(serious),
+        };
+        let a_bad: Option<String> = match &ra {
+            Err(p) => Some(format!("panicked: {}", p)),
+            Ok(r) => r.2.iter().find(|x| serious(x)).map(|x| format!("[{}] {}", x.class, x.msg)),
+        };
+        match (a_bad, f_bad) {
+            (Some(msg), false) => {
+                return Ok(Some(frec(prop, "latent_damage", format!("step {} ({:?}) fails on the queue left by step {} ({:?}) but not on a queue freshly built from the same contents: {}", i, st, at, b.steps[at], msg), i)));
+            }
+            (Some(_), true) | (None, true) => return Err("the freshly built twin fails too: not attributable".into()),
+            (None, false) => {}
+        }
+    }
+    Ok(None)
+}
+
+pub struct LatentEngine {
+    pub prop: &'static str,
+    pub focus: u32,
+    pub fams: Vec<Fam>,
+    pub quick_runs: u64,
+    pub thorough_runs: u64,
+}
+
+impl Engine for LatentEngine {
+    fn prop(&self) -> &'static str {
+        self.prop
+    }
+    fn info(&self) -> EngineInfo {
+        let names: Vec<&str> = self.fams.iter().map(|f| f.name()).collect();
+        EngineInfo {
+            level: "exploration",
+            unit: "twin cases: a history containing an operation of the property at a seeded point; from there on a queue freshly built from the same contents runs the remaining steps too, and a failure of any behavioural oracle on the real queue that the fresh one does not share is attributed to that operation",
+            rule: format!("operations under scrutiny: {{{}}}; up to 3 per history. Non-trivial = at least 3 steps follow the operation on a queue of >= 2 elements; distinct = digest of the case", names.join(", ")),
+            real: REAL.to_vec(),
+            stubbed: STUBBED.to_vec(),
+            assumptions: vec!["differential attribution: an unrelated defect fails on both twins and is not reported against this property".into(), "sampling, not proof".into()],
+            fault_kinds: vec![],
+            exhaustive_note: None,
+        }
+    }
+    fn runs(&self, tier: Tier) -> u64 {
+        match tier {
+            Tier::Quick => self.quick_runs,
+            Tier::Thorough => self.thorough_runs,
+        }
+    }
+    fn run_one(&self, seed: u64, idx: u64, _tier: Tier, acc: &mut Acc) {
+        let mut rng = Rng::new(mix(seed, idx) ^ 0x1A7E ^ (self.focus as u64) << 20);
+        let mut cfg = gen_cfg(&mut rng, self.focus, None);
+        cfg.len = cfg.len.min(50).max(6);
+        cfg.weights[Fam::IterMutLeak as usize] = 0;
+        let steps = match gen_history(rng, &cfg, self.focus) {
+            Some(s) => s,
+            None => {
+                acc.abandoned += 1;
+                acc.runs += 1;
+                return;
+            }
+        };
+        let ats: Vec<usize> = steps.iter().enumerate().filter(|(_, s)| self.fams.contains(&s.fam())).map(|(i, _)| i).collect();
+        if ats.is_empty() {
+            acc.runs += 1;
+            acc.bump("counters", "histories_without_an_operation_of_the_property", 1);
+            return;
+        }
+        // prefer operations with something after them
+        for at in ats.into_iter().filter(|a| a + 1 < steps.len()).take(3) {
+            acc.runs += 1;
+            let body = LatentBody { cfg: cfg.clone(), steps: steps.clone(), at };
+            let d = body_digest(&body);
+            acc.counters.insert("last_digest".into(), d);
+            if track_level() >= 2 {
+                track_line(2, &format!("B {}", serde_json::to_string(&body).unwrap()));
+            }
+            acc.steps += (2 * (steps.len() - at) + at) as u64;
+            match run_latent_case(&body, self.prop, self.focus) {
+                Err(e) => {
+                    acc.bump("counters", "not_comparable", 1);
+                    if acc.abandoned_samples.len() < 3 && !e.contains("suspended") {
+                        acc.abandoned_samples.push(format!("run {} (not comparable, not a run lost): {}", idx, e));
+                    }
+                }
+                Ok(f) => {
+                    acc.bump("fams", body.steps[at].fam().name(), 1);
+                    if steps.len() - at > 3 {
+                        acc.nontrivial_runs += 1;
+                        acc.digests.push(d);
+                    }
+                    if acc.samples.len() < 2 && steps.len() <= 10 && steps.len() - at > 3 {
+                        acc.samples.push(json!({"run": idx, "steps": body.steps, "operation_under_scrutiny": at, "outcome": "no latent damage"}));
+                    }
+                    if let Some(f) = f {
+                        acc.violations.push(Case { property: self.prop.into(), seed, run: idx, body: serde_json::to_value(&body).unwrap(), fail: Some(f), minimised: false, original_steps: 0 });
+                        return;
+                    }
+                }
+            }
+        }
+    }
+    fn replay(&self, body: &serde_json::Value) -> Result<Option<FailRec>, String> {
+        let b: LatentBody = serde_json::from_value(body.clone()).map_err(|e| e.to_string())?;
+        Ok(run_latent_case(&b, self.prop, self.focus).unwrap_or(None))
+    }
+    fn shrink_candidates(&self, body: &serde_json::Value, fail: &FailRec) -> Vec<serde_json::Value> {
+        let b: LatentBody = match serde_json::from_value(body.clone()) {
+            Ok(b) => b,
+            Err(_) => return Vec::new(),
+        };
+        let mut out: Vec<LatentBody> = Vec::new();
+        if fail.step + 1 < b.steps.len() {
+            let mut c = b.clone();
+            c.steps.truncate(fail.step + 1);
+            out.push(c);
+        }
+        for i in 0..b.steps.len() {
+            if i == b.at {
+                continue;
+            }
+            let mut c = b.clone();
+            c.steps.remove(i);
+            if i < c.at {
+                c.at -= 1;
+            }
+            out.push(c);
+        }
+        for (i, st) in b.steps.iter().enumerate() {
+            for s2 in simplify_step(st) {
+                if i == b.at && s2.fam() != st.fam() {
+                    continue;
+                }
+                let mut c = b.clone();
+                c.steps[i] = s2;
+                out.push(c);
+            }
+        }
+        out.into_iter().map(|c| serde_json::to_value(&c).unwrap()).collect()
+    }
+    fn abort_is_violation(&self, _body: &serde_json::Value, _class: &str) -> bool {
+        false
     }
     fn size_of(&self, body: &serde_json::Value) -> usize {
         body.get("steps").and_then(|s| s.as_array()).map_or(0, |a| a.len())
